@@ -141,7 +141,8 @@ import re as _re
 
 
 def _p_string(t):
-    if not t[0].startswith("p_") or len(t) < 2:
+    # (Calendar::from_str reads the same strings: `cal_id <hex>`)
+    if not (t[0].startswith("p_") or t[0] == "cal_id") or len(t) < 2:
         return None
     try:
         return bytes.fromhex(t[1]).decode("utf8") if t[1] != "-" else ""
